@@ -161,4 +161,17 @@ example : shiftMonths { y := 2024, mo := 1, d := 31, h := 10 } 1 = .ok { y := 20
 example : shiftMonths { y := 2024, mo := 2, d := 29 } (-12) = .ok { y := 2023, mo := 2, d := 28 } := by rfl
 example : rdAddYM { y := 2020, mo := 3, d := 31 } (-1) (-25) = .ok { y := 2017, mo := 2, d := 28 } := by rfl
 
+
+/-- generated fact: the source decides the period 'time' by a clock time having been parsed, not by the datetime having changed -/
+theorem C04_time_period_source : Gen.freshTimePeriodByChange = false := by decide
+
+/-- **C04_time_period**: when time-as-period is requested and the phrase carries a clock time, the period is 'time' — also when that
+    clock time equals the reference's own time of day (the defect of the pinned tree: 'yesterday at 00:00' at a midnight reference) -/
+theorem C04_time_period (changed : Bool) (p : Period) : freshPeriod true changed p = .time := by
+  simp [freshPeriod, C04_time_period_source]
+
+/-- without the request the period is untouched -/
+theorem C04_time_period_off (changed : Bool) (p : Period) : freshPeriod false changed p = p := by
+  simp [freshPeriod]
+
 end DP
